@@ -84,6 +84,7 @@ ck.log("generated %d packages, %d analyzers each in process" % (len(pkgs), len(g
 def canon(msg):
     """panic message without addresses / positions / generated suffixes"""
     msg = re.sub(r"0x[0-9a-f]+", "0x", msg)
+    msg = re.sub(r" at /\S+", "", msg)
     msg = re.sub(r"/tmp/[^ :]+", "<file>", msg)
     msg = re.sub(r"_s\d+", "", msg)
     msg = re.sub(r":\d+:\d+", "", msg)
@@ -138,6 +139,9 @@ def judge(rc, so, se):
             continue
         if d.get("code") in ("compile", "config"):
             bad.append((d["code"], "%s: %s" % (d.get("location", {}).get("file", ""), d.get("message", ""))))
+    for m in re.finditer(r"^warning: (skipped package \S+ because it is too large)", se, re.M):
+        # corpora packages are small: not analysing one is a spurious failure of the run
+        bad.append(("skipped", m.group(1)))
     if not bad and re.search(r"internal error", se):
         bad.append(("internal-error", se.strip().splitlines()[0][:300]))
     return bad
@@ -154,7 +158,13 @@ ck.log("real binary over generated module: rc=%d bad=%d" % (rc, len(bad)))
 real_viol = {}      # key -> dict
 if bad:
     # attribute: run every package on its own (a crash kills the whole process, so the first run shows one crash only)
-    for p in pkgs:
+    # packages the in-process driver flagged first, then single-snippet packages, then the rest
+    flagged = {p["Name"] for p in pkgs if p["Panics"] or p["Errors"]}
+    order = sorted(pkgs, key=lambda p: (p["Name"] not in flagged, not p.get("BinaryOnly"), len(p["Snippets"]), len(src_of(p))))
+    want = {"%s:%s" % (k, canon(d)) for k, d in bad}
+    for p in order:
+        if p["Name"] not in flagged and not p.get("BinaryOnly") and not (want - set(real_viol)):
+            break       # every failure of the whole-module run has a single-package witness
         rc1, so1, se1 = run_sc(mod, ["./" + p["Name"]])
         for kind, detail in judge(rc1, so1, se1):
             single = len(p["Snippets"]) == 1
@@ -173,25 +183,33 @@ for alt, (key, p, q) in inproc.items():
     b1 = judge(rc1, so1, se1)
     confirmed[alt] = (key, p, q, b1, se1)
 
-for alt, v in real_viol.items():
-    p = v["pkg"]
-    what = "staticcheck (all analyzers) %s on a buildable generated program: %s" % (
-        "crashes" if v["kind"] == "crash" else "reports a %s problem" % v["kind"], v["detail"][:200])
-    ck.violation(v["key"], what, {"package": p and p["Name"], "snippets": p and p["Snippets"], "source": p and src_of(p),
-                                  "stderr": v["stderr"], "rerun": "cd <module with this file>; staticcheck -debug.run-quickfix-analyzers -checks=all ./..."})
-real_keys = {v["key"] for v in real_viol.values()}
+def already(kind, detail):
+    """the same failure (kind + canonical message) has been reported with a (smaller) witness before"""
+    c = canon(detail)
+    return any(v["key"].endswith(":%s:%s" % (kind, c)) or v["key"].endswith(":" + c) for v in ck.violations)
+
+real_keys = set()
 for alt, (key, p, q, b1, se1) in confirmed.items():
     if b1:
         k2 = "%s:%s:%s" % (key.split(":")[0], b1[0][0], canon(b1[0][1]))
         if k2 not in real_keys:
             real_keys.add(k2)
-            ck.violation(k2, "staticcheck (all analyzers) crashes on a buildable generated program: %s (in-process: analyzer %s)" % (b1[0][1][:200], q["Analyzer"]),
+            ck.violation(k2, "staticcheck (all analyzers) %s on a buildable generated program: %s (in-process: analyzer %s)" % ("crashes" if b1[0][0] == "crash" else "fails (%s)" % b1[0][0], b1[0][1][:200], q["Analyzer"]),
                          {"package": p["Name"], "snippets": p["Snippets"], "source": src_of(p), "stderr": se1[:3000], "in_process": q})
     else:
         # the in-process driver saw a panic the binary does not show: the binary recovers nothing, so this is a
         # disagreement between the two drivers (e.g. an analyzer the CLI does not register)
         ck.violation(key, "analyzer %s panics on a buildable generated program when run in process: %s (the CLI run of the same package was clean)" % (q["Analyzer"], q["Value"][:200]),
                      {"package": p["Name"], "snippets": p["Snippets"], "source": src_of(p), "in_process": q})
+
+for alt, v in real_viol.items():
+    p = v["pkg"]
+    if already(v["kind"], v["detail"]):
+        continue
+    what = "staticcheck (all analyzers) %s on a buildable generated program: %s" % (
+        "crashes" if v["kind"] == "crash" else "fails (%s)" % v["kind"], v["detail"][:200])
+    ck.violation(v["key"], what, {"package": p and p["Name"], "snippets": p and p["Snippets"], "source": p and src_of(p),
+                                  "stderr": v["stderr"], "rerun": "cd <module with this file>; staticcheck -debug.run-quickfix-analyzers -checks=all ./..."})
 
 # ------------------------------------------------------------------ 6. repository / testdata / std corpora
 def repo_patterns():
@@ -211,6 +229,8 @@ bad = judge(rc, so, se)
 real_runs.append({"corpus": "repository " + " ".join(pats), "rc": rc, "bad": len(bad), "diagnostics": ndiag(so)})
 ck.log("real binary over repository packages: rc=%d bad=%d" % (rc, len(bad)))
 for kind, detail in bad[:5]:
+    if already(kind, detail):
+        continue
     # confirm that the toolchain accepts what staticcheck rejects
     rcb, failing, outb = buildable(REPO, pats)
     if kind in ("compile", "config") and rcb != 0:
@@ -267,20 +287,26 @@ if names:
     real_runs.append({"corpus": "testdata packages that go build accepts", "packages": len(names), "dropped_not_buildable": dropped,
                       "rc": rc, "bad": len(bad), "diagnostics": ndiag(so)})
     ck.log("real binary over %d testdata packages (%d not buildable dropped): rc=%d bad=%d" % (len(names), dropped, rc, len(bad)))
+    bad = [b for b in bad if not already(*b)]
     if bad:
-        # attribute to single packages
+        # attribute to single packages; a crash ends the process, so one run shows one crash: stop at the first
+        # package that reproduces each message (at most 12 single-package runs)
+        want = {canon(d) for _, d in bad}
         seen = set()
-        for name in sorted(names):
+        for name in sorted(names)[:12]:
+            if not (want - seen):
+                break
             rc1, so1, se1 = run_sc(td, ["./" + name], extra=["-tests=false"])
             for kind, detail in judge(rc1, so1, se1):
-                k = "testdata:%s:%s:%s" % (names[name], kind, canon(detail))
-                if k in seen:
+                if canon(detail) in seen or already(kind, detail):
                     continue
-                seen.add(k)
-                ck.violation(k, "staticcheck (all analyzers) on buildable testdata package %s: %s %s" % (names[name], kind, detail[:300]),
+                seen.add(canon(detail))
+                ck.violation("testdata:%s:%s:%s" % (names[name], kind, canon(detail)),
+                             "staticcheck (all analyzers) on buildable testdata package %s: %s %s" % (names[name], kind, detail[:300]),
                              {"package": names[name], "stderr": se1[:3000]})
-        if not seen:
-            ck.violation("testdata:%s" % canon(bad[0][1]), "staticcheck (all analyzers) over the testdata module: %s %s" % bad[0], {"stderr": se[:3000]})
+        for kind, detail in bad:
+            if canon(detail) not in seen and not already(kind, detail):
+                ck.violation("testdata:%s:%s" % (kind, canon(detail)), "staticcheck (all analyzers) over the testdata module: %s %s" % (kind, detail[:300]), {"stderr": se[:3000]})
 
 if ck.thorough():
     rc, so, se = run_sc(REPO, ["std"], timeout=7200)
@@ -288,6 +314,8 @@ if ck.thorough():
     real_runs.append({"corpus": "std", "rc": rc, "bad": len(bad), "diagnostics": ndiag(so)})
     ck.log("real binary over std: rc=%d bad=%d" % (rc, len(bad)))
     for kind, detail in bad[:5]:
+        if already(kind, detail):
+            continue
         ck.violation("std:%s:%s" % (kind, canon(detail)), "staticcheck (all analyzers) over std: %s %s" % (kind, detail[:300]), {"stderr": se[:3000]})
     rcb, failing, outb = buildable(mod, ["./..."])
     if rcb != 0:
@@ -494,7 +522,7 @@ ck.assume += [
     "go/types export data and types.Implements (used to cross-check genmodel's universes on every run)",
     "exclusion table Model/C03_Registry.v: each excluded universe member carries a justification from the Go spec / go/parser / go/types contract; only the NotConstructed ones are machine-checked",
     "the abstract dispatch model covers the choice of the clause only; what a clause does after being chosen (type assertions, index expressions, nil dereferences inside analyzers) is not modelled and only explored",
-    "exploration oracle: exit status 0/1, no 'panic:'/'fatal error:' on stderr, no compile/config problem in the JSON output of the real binary built from the working tree",
+    "exploration oracle: exit status 0/1, no 'panic:'/'fatal error:' on stderr, no compile/config problem in the JSON output, no 'skipped package' warning, for the real binary built from the working tree",
 ]
 ck.finish({
     "explanation": "PARTIAL. Proved (Coq, re-checked every run on tables regenerated from source): for each of the %s registered panicking switches the case list covers its universe minus the justified exclusions (switch_total), with a general lemma that such coverage makes the panicking default unreachable in the dispatch model; every panicking switch found by the scan (%s) is registered, listed explored-only with a reason (%s) or self-covering. NOT proved: absence of panics other than a missed dispatch case; termination; spurious compile/config failures. Those are explored: %d analyzers x %d generated packages in process (per-analyzer recover) and the real staticcheck binary (all analyzers incl. quickfix) over the generated module, %s." % (
